@@ -140,8 +140,12 @@ def parse_info(text, filename='<string>'):
 
 
 def editor_lines(text):
-    # the same line structure supp's Source uses for a cursor request (util.py:344-358)
-    return text.splitlines() or ['']
+    # lines as the tokenizer / an editor number them (\n, \r\n, \r end a line; form feed and the
+    # unicode separators do not); a final line terminator does not open another line
+    lines = re.split('\r\n|\r|\n', text)
+    if len(lines) > 1 and lines[-1] == '':
+        lines = lines[:-1]
+    return lines
 
 
 def marked_text(text, pos):
@@ -456,7 +460,7 @@ def mutations(text, rng, n):
     nl = len(lines)
     if nl == 0:
         return out
-    kinds = ['truncline', 'dot', 'delline', 'truncfile', 'escape', 'escape_cls', 'halfimport', 'truncline', 'dot', 'escape_nested']
+    kinds = ['truncline', 'dot', 'delline', 'truncfile', 'escape', 'escape_cls', 'halfimport', 'truncline', 'dot', 'escape_nested', 'blankend']
     tries = 0
     while len(out) < n and tries < n * 6:
         tries += 1
@@ -508,6 +512,14 @@ def mutations(text, rng, n):
                 ln = len(new) - 1
                 col = 4 + len(stmt)
             out.append((kind, '\n'.join(new), (ln, col)))
+        elif kind == 'blankend':
+            # Enter typed after a line at the end of the (cut) file: the last line is indentation only
+            cand = [k for k in range(nl) if lines[k].rstrip().endswith(':') and not lines[k].lstrip().startswith('#')]
+            k = rng.choice(cand) if cand and rng.random() < 0.8 else i
+            l = lines[k]
+            ind = l[:len(l) - len(l.lstrip())] + ('    ' if l.rstrip().endswith(':') else '')
+            new = lines[:k + 1] + [ind]
+            out.append((kind, '\n'.join(new), (k + 2, rng.choice([len(ind), len(ind), 0, len(ind) // 2]))))
         elif kind == 'escape_nested':
             # the statement stays where it is but a new scope is typed around it (the loop body /
             # function body being wrapped into a helper def, class or lambda-like one-liner), or it
@@ -1178,7 +1190,33 @@ def altbase_templates():
     return [('altbase', t) for t in out]
 
 
-SPECIAL_CASES = SPECIAL_CASES + altbase_templates()
+def blankend_templates():
+    """The state right after typing a block opener + Enter at the end of a file: the last line is
+    only indentation, there is no trailing newline, the cursor stands behind (or inside, or before)
+    that indentation.  The cursor-marked text parses, so no SyntaxError may escape."""
+    heads = ['def f():', 'if x:', 'class A:', 'for a in b:', 'while a:', 'try:', 'with a as b:', 'async def f(self):',
+             'x = 1\nif x:\n    pass\nelse:', 'class A:\n    def m(self):', 'def f():\n    for a in b:\n        if a:',
+             'try:\n    pass\nexcept E as e:', 'class A:\n    x = 1\n    def m(self):\n        return self.x\n    def n(self):',
+             'import os\ndef f(a, b=os.path):', 'def f():\n    x = 1', 'x = [\n    1,\n]\nif x:']
+    out = []
+    for h in heads:
+        depth = (len(h.split('\n')[-1]) - len(h.split('\n')[-1].lstrip())) // 4 + (1 if h.rstrip().endswith(':') else 0)
+        ind = '    ' * max(depth, 1)
+        out.append(h + '\n' + ind + '|')                       # cursor behind the indentation
+        out.append(h + '\n' + ind[:-2] + '|' + ind[-2:])       # inside it
+        out.append(h + '\n|' + ind)                            # before it
+        out.append(h + '\n' + ind + '|\n')                    # the same with a trailing newline
+        out.append(h + '\n' + '\t' * max(depth, 1) + '|')     # tab indentation
+        out.append(h + '\n' + ind + '\n' + ind + '|')         # two blank lines
+        out.append(h + '\n' + ind + 'se|')                     # first characters of the statement typed
+        out.append(h + '\r\n' + ind + '|')                    # CRLF buffer
+    out.append('   |')
+    out.append('\n   |')
+    out.append('x = 1\n\n\n    |')
+    return [('blankend', t) for t in out]
+
+
+SPECIAL_CASES = SPECIAL_CASES + altbase_templates() + blankend_templates()
 
 
 def cursor_case(src):
